@@ -179,7 +179,7 @@ def run(R, tier, configs=("dflt",)):
 
     # ---- R08.5 the lexer hands the complete literal to the conversion (any mantissa / exponent length) -----------------
     from . import lexer as LX
-    LX.check_elements(R, "R08.5", ("decimal",))
+    LX.check_elements(R, "R08.5", ("decimal",), tier == "thorough")
 
     # ---- R08.4 boolean ---------------------------------------------------------------------------------------------
     bs = [b for ty, b in C.conversions(u) if ty == "bool"]
